@@ -298,3 +298,16 @@ _amend('C13', 'A spherical-arm guard whose only bound on cos(theta) admits cos(t
 _amend('C16', 'One is_same fact per typedef that gtc/type_aligned.hpp declares (names enumerated from the header): storage, precision, element type and shape spelled by the name.')
 _amend('C18', 'floor / prev / roundPowerOfTwo are analysed for 8-, 16-, 32- and 64-bit types in every tier; a result term that is not 1 << findMSB(x) is refuted with the witness x = 2^j + 1.')
 _amend('C19', 'A division by zero on the evaluated path of an HSV round-trip case is refuted when the derived terms, evaluated at the sample colour of the case, do not return it.')
+_amend('C01', 'gtx/component_wise: compAdd / compMul as polynomial identities, compMin / compMax / fcompMin / fcompMax as the left fold of the scalar overload, compNormalize / compScale per lane against their definitions (rules/c01_cw.py).')
+_amend('C04', 'ext/quaternion_exponential: exp against its definition (identity for a vanishing vector part, no uninitialised component), the threshold of the real-number shortcut of pow <= epsilon^2, sqrt == pow(q, 1/2).')
+_amend('C05', 'A findLSB / findMSB shape that does not normalise is evaluated (derived term) at members of the shape and refuted on a wrong value.')
+_amend('C06', 'Templated packHalf<L> / unpackHalf<L> lane plumbing; packRGBM / unpackRGBM against their definition (m = ceil(clamp(max(c) / 6, 0, 1) * 255) / 255, colour lanes (c / 6) / m, decoder rgb * m * 6).')
+_amend('C08', 'infinitePerspectiveLH / RH are part of the dispatch rule (a declared but undefined API function is an existence violation); tweakedInfinitePerspective == infinitePerspectiveRH_NO + ep * E (default ep = epsilon<T>()); pickMatrix == translate * scale of the pick region under its delta > 0 guard; float and double in every tier.')
+_amend('C09', 'gtx/rotate_vector slerp(vec3, vec3, a) against sin((1 - a) t) / sin t, sin(a t) / sin t with t = acos(x . y); orientation(n, up) == identity when equal within epsilon, else rotate(acos(n . up), up x n).')
+_amend('C10', 'gtx/matrix_operation diagonalCxR, gtx/matrix_factorisation fliplr / flipud as selections; gtx/matrix_query isNull / isIdentity / isNormalized / isOrthogonal are the conjunction of exactly the comparisons of their definition (boolean structure compared as a BDD, comparisons as polynomials); '
+       'qr_decompose is the modified Gram-Schmidt formula for 2x2, 3x3, 3x2, 2x3 (4x4 in the thorough tier) - the classical variant, equal in exact arithmetic but with an orthogonality loss quadratic in the condition number, is refuted structurally.',
+       'Superseded: gtx matrix_query and qr_decompose are now decided (rules/c10_aux.py); rq_decompose is not analysed separately (it calls qr_decompose on the flipped transpose).')
+_amend('C11', 'The NaN-aware rule covers the vector overloads of fmin / fmax (2-4 operands, vector and scalar second operand) and fclamp (vector and scalar bounds) for every length.')
+_amend('C13', 'squad / intermediate with their primitives (mix, slerp, exp, log, inverse) kept as opaque calls are the documented compositions.', 'Superseded: squad / intermediate are decided as compositions.')
+_amend('C18', 'gtx/integer sqrt(int) / sqrt(uint): the kernel with a constant argument must fold to floor(sqrt(n)) for small values, k^2 - 1, k^2, k^2 + 1 and the type maxima.')
+NOTES = NOTES + ' Scheduling is deterministic: cases are dealt round-robin into 64 partitions, each run in a freshly forked worker, so hash-consed term ids (which order commutative operands) do not depend on which worker was free; floors (rules/expect.json) are exact decided counts.' if isinstance(NOTES, str) else NOTES
